@@ -478,6 +478,11 @@ def fixed():
     z.enum([("unit", []), ("unit", []), ("tuple", [flat_vec(U8, "u16")])], sized=False, default=1, comment="default is the second unit variant")
     z.enum([("unit", []), ("tuple", [U32]), ("unit", []), ("unit", [])], sized=False, default=2, tag="u16", comment="default is a later unit variant, u16 tag")
     z.enum([("unit", []), ("unit", []), ("unit", []), ("tuple", [U8])], default=2, comment="sized enum, default is the third unit variant")
+    # no unit variant and the smallest variant ends off the alignment: MIN_SIZE is DATA_OFFSET + min, rounded up
+    z.enum([("tuple", [U32, flat_vec(U8, "u8")]), ("tuple", [U8, U8, U8])], sized=False, default=None, comment="unsized enum whose smallest variant has 3 bytes, align 4")
+    z.enum([("tuple", [U64, flat_vec(U8, "u8")]), ("named", [U16, U8]), ("tuple", [array(U8, 5)])], sized=False, default=None, tag="u16",
+           comment="unsized enum whose smallest variant has 3 bytes, align 8, u16 tag")
+    z.enum([("tuple", [U16, flat_string("u8")]), ("tuple", [U8])], sized=False, default=None, comment="unsized enum whose smallest variant has 1 byte, align 2")
     inner_n = z.enum([("unit", []), ("tuple", [flat_vec(U16, "u8")])], sized=False, comment="inner unsized enum")
     z.struct([U32, inner_n], sized=False, comment="unsized enum nested as struct tail", msg=True)
     # an unsized enum whose variant tail is itself an unsized enum with variants of different minimal sizes: the inner
